@@ -198,7 +198,7 @@ def gen_doc(r):
         grd = gl.guard(1).replace("P1.lv", "lv").replace("P2.lv", "lv").replace("P1.L0", "b").replace("P2.L1", "c")
         sync = r.choice(["ch!", "ch?", "bc[id]!", "bc[0]?", ""])
         edges.append((grd, sync, upd))
-    t = ["<template><name>P</name><parameter>int id</parameter><declaration>int lv; clock lx;</declaration>",
+    t = ["<template><name>P</name><parameter>int id</parameter><declaration>int lv; clock lx; int k; bool c;</declaration>",
          '<location id="id0"><name>L0</name><label kind="invariant">%s</label></location>' % escape(r.choice(["lx <= 5 && x' == 1", "lx <= N", "x' == 0 && lx < 10 + id"])),
          '<location id="id1"><name>L1</name></location><init ref="id0"/>']
     for k, (grd, sync, upd) in enumerate(edges):
@@ -426,6 +426,13 @@ def dot_type_session(ctx, exe, r, stats):
             sz = pexpr(1)
             decls.append("int w%d[%s];" % (k, sz))
             bounds["w%d" % k] = ("array", sz)
+    # the same inside records (and arrays of records): the substitution descends into the field types
+    for k in range(r.randint(1, 3)):
+        lo, hi, sz = pexpr(1), pexpr(2), pexpr(1)
+        arr = r.random() < 0.4
+        decls.append("struct { int[%s, %s] f; int g[%s]; } s%d%s;" % (lo, hi, sz, k, "[2]" if arr else ""))
+        bounds["s%d%s.f" % (k, "[1]" if arr else "")] = ("range", lo, hi)
+        bounds["s%d%s.g" % (k, "[0]" if arr else "")] = ("array", sz)
     insts = []
     for k in range(r.randint(1, 3)):
         insts.append(("Q%d" % k, aexpr(1), aexpr(1)))
